@@ -145,6 +145,22 @@ func c18Property(t *rapid.T) {
 				}
 			}
 		}
+		// no two live instances share an options object (or a non-empty option group) they did not both receive
+		for i := range writers {
+			for j := i + 1; j < len(writers); j++ {
+				a, b := writers[i].Options, writers[j].Options
+				if a == b || a.RenderOptions == b.RenderOptions || a.StoreOptions == b.StoreOptions {
+					t.Fatalf("after %s: writers %d and %d share an options object%s", after, i, j, history())
+				}
+			}
+		}
+		for i := range readers {
+			for j := i + 1; j < len(readers); j++ {
+				if readers[i].Options == readers[j].Options {
+					t.Fatalf("after %s: readers %d and %d share an options object%s", after, i, j, history())
+				}
+			}
+		}
 		for i, r := range readers {
 			m := rmodels[i]
 			o := r.Options
@@ -249,6 +265,45 @@ func c18Property(t *rapid.T) {
 			} else if sawOptioned["reader"] {
 				optionedThenPlain["reader"] = true
 			}
+			checkAll(hist[len(hist)-1])
+		},
+		"reconfigureWriter": func(t *rapid.T) {
+			// configuring an existing instance in place must not leak into any other instance either
+			if len(writers) == 0 {
+				t.Skip("no writer")
+			}
+			i := rapid.IntRange(0, len(writers)-1).Draw(t, "w")
+			m, o := wmodels[i], writers[i].Options
+			switch rapid.SampledFrom([]string{"format", "indent", "noclobber", "formatOptions"}).Draw(t, "what") {
+			case "format":
+				m.format = rapid.SampledFrom([]formats.Format{"", fakeFormat, formats.CDX14JSON}).Draw(t, "format")
+				o.Format = m.format
+			case "indent":
+				m.indent = rapid.IntRange(0, 9).Draw(t, "indent")
+				o.RenderOptions.Indent = m.indent
+			case "noclobber":
+				m.noClobber = !m.noClobber
+				o.StoreOptions.NoClobber = m.noClobber
+			case "formatOptions":
+				k := rapid.SampledFrom(foKeys).Draw(t, "fokey")
+				v := fmt.Sprintf("w%d-reconf", i)
+				m.fo[k] = v
+				o.SetFormatOptions(k, v)
+			}
+			logf("writer %d reconfigured in place -> format=%q indent=%d noclobber=%v", i, m.format, m.indent, m.noClobber)
+			checkAll(hist[len(hist)-1])
+		},
+		"reconfigureReader": func(t *rapid.T) {
+			if len(readers) == 0 {
+				t.Skip("no reader")
+			}
+			i := rapid.IntRange(0, len(readers)-1).Draw(t, "r")
+			m, o := rmodels[i], readers[i].Options
+			k := rapid.SampledFrom(foKeys).Draw(t, "fokey")
+			v := fmt.Sprintf("r%d-reconf", i)
+			m.fo[k] = v
+			o.SetFormatOptions(k, v)
+			logf("reader %d reconfigured in place: format options[%s]=%s", i, k, v)
 			checkAll(hist[len(hist)-1])
 		},
 		"write": func(t *rapid.T) {
